@@ -50,6 +50,11 @@ func (ial *IndentAwareLexer) checkNextToken() {
 func (ial *IndentAwareLexer) handleNewLineToken(currentToken antlr.Token) {
 	ial.pendingTokens.Enqueue(currentToken)
 
+	if ial.nextLineIsBlankOrComment() {
+		// blank lines and comment-only lines don't take part in indentation tracking
+		return
+	}
+
 	currentIndentationLength := ial.getLengthOfNewlineToken(currentToken)
 
 	previousIndent := 0
@@ -73,6 +78,17 @@ func (ial *IndentAwareLexer) handleNewLineToken(currentToken antlr.Token) {
 			}
 		}
 	}
+}
+
+func (ial *IndentAwareLexer) nextLineIsBlankOrComment() bool {
+	input := ial.GetInputStream()
+	switch input.LA(1) {
+	case '\r', '\n', antlr.TokenEOF:
+		return true
+	case '/':
+		return input.LA(2) == '/'
+	}
+	return false
 }
 
 func (ial *IndentAwareLexer) getLengthOfNewlineToken(currentToken antlr.Token) int {
